@@ -122,7 +122,7 @@ class C09(Check):
     assumptions = [
         "when a record branch and a non-record branch both conform the statement ranks neither: any conforming branch is accepted",
         "closure is asserted for data whose hints are on named branches only",
-        "shape under return_record_name* is not asserted for unions holding by-name references to enum or fixed types (documented approximation: such a reference is counted as a record)",
+        "shape under return_record_name_override is not asserted for unions holding by-name references to enum or fixed types (documented approximation: such a reference is counted as a record by the single-record test)",
     ]
     required_labels = ["multi-conforming", "hint:tuple", "hint:-type", "hint:wrong", "hint:wrong:-type", "float-deferral", "record-tie", "closure", "shape:named", "shape:named-override-single", "shape:record-by-name", "shape:record-override-single", "logical-family", "logical-generated", "decimal-to-later-branch", "logical-by-name", "no-tuple-notation"]
     quick = (4000, 1)
@@ -395,13 +395,13 @@ class C09(Check):
                     return (name, inner)
                 return inner
             if opts.get("return_record_name") or opts.get("return_record_name_override"):
-                if any(M.deref(x, table)["k"] != "record" for x in refs):
-                    # a by-name reference to an enum or fixed is counted as a record by design: not asserted
+                if opts.get("return_record_name_override") and any(M.deref(x, table)["k"] != "record" for x in refs):
+                    # the *_override test counts a by-name reference to an enum or fixed as a record by design: not asserted
                     flags.add("approx")
                     return inner
                 if refs:
                     flags.add("shape:record-by-name")
-                if opts.get("return_record_name_override") and len(inline_recs) + len(refs) == 1:
+                if opts.get("return_record_name_override") and len(inline_recs) + len([x for x in refs if M.deref(x, table)["k"] == "record"]) == 1 and not any(M.deref(x, table)["k"] != "record" for x in refs):
                     flags.add("shape:record-override-single")
                     return inner
                 if opts.get("return_record_name") and bk == "record":
